@@ -126,6 +126,11 @@ def requests(tier, rng):
         cases = [good,
                  hs([5, 1, 9], [3] + [3] * (k - 1)),          # not increasing
                  hs([1, 1, 9], [3] + [3] * (k - 1)),          # repeated index
+                 hs([0, 0, 9], [3] + [3] * (k - 1)),          # repeated index 0 (0 is a legal position, not "no previous index")
+                 hs([0, 0], [2] + [2] * (k - 1)), hs([0, 5, 5], [3] + [3] * (k - 1)), hs([255, 255], [2] + [2] * (k - 1)),
+                 hs([3, 0, 0], [1, 3] + [3] * (k - 2)),       # repeated 0 in the second row
+                 hs([7] + [0, 0], [1] * (k - 1) + [3]),       # repeated 0 in the last row
+                 hs([0], [1] + [1] * (k - 1)), hs([0, 1], [2] + [2] * (k - 1)), hs([4, 0], [1, 2] + [2] * (k - 2)),   # legal uses of position 0
                  hs([1, 5, 9], [3, 2] + [3] * (k - 2)),       # counter decreasing
                  hs([1, 5, 9], [3] * (k - 1) + [om + 1]),     # counter above omega
                  hs([1, 5, 9, 7], [3] + [3] * (k - 1)),       # non-zero padding
